@@ -15,3 +15,22 @@ Print Assumptions C09_szdd_decompress_ledger.
 Theorem C09_szdd_open_extract_close_ledger : forall (o : oracle) junk fuel, clean (snd (run o mon0 (script_open_extract junk fuel))).
 Proof. exact szdd_script_open_extract_clean. Qed.
 Print Assumptions C09_szdd_open_extract_close_ledger.
+
+(* ---- the KWAJ front end (L2/Kwaj.v = kwajd.c: open with its optional name / extra-text allocations, extract, close, decompress) ---- *)
+From MSP Require Import L2.Kwaj Proofs.KwajLedger.
+(* for every host; the LZH and MSZIP decoders are abstract programs assumed to leave the ledger as they found it *)
+Theorem C09_kwaj_decompress_ledger : forall junk fuel (lzh mszip : handle -> handle -> prog N),
+  (forall L R W fh oh, fh ∈ R -> oh ∈ W -> triple (st L R W) (lzh fh oh) (fun _ => st L R W)) ->
+  (forall L R W fh oh, fh ∈ R -> oh ∈ W -> triple (st L R W) (mszip fh oh) (fun _ => st L R W)) ->
+  forall o : oracle, clean (snd (run o mon0 (kscript_decompress junk fuel lzh mszip))).
+Proof. exact kwaj_script_decompress_clean. Qed.
+Theorem C09_kwaj_open_extract_close_ledger : forall junk fuel (lzh mszip : handle -> handle -> prog N),
+  (forall L R W fh oh, fh ∈ R -> oh ∈ W -> triple (st L R W) (lzh fh oh) (fun _ => st L R W)) ->
+  (forall L R W fh oh, fh ∈ R -> oh ∈ W -> triple (st L R W) (mszip fh oh) (fun _ => st L R W)) ->
+  forall o : oracle, clean (snd (run o mon0 (kscript_open_extract junk fuel lzh mszip))).
+Proof. exact kwaj_script_open_extract_clean. Qed.
+Print Assumptions C09_kwaj_decompress_ledger.
+Print Assumptions C09_kwaj_open_extract_close_ledger.
+(* the assumption on the abstract decoders is satisfiable (the stand-in used by the correspondence driver) *)
+Example C09_kwaj_bodies_exist : forall L R W fh oh, fh ∈ R -> oh ∈ W -> triple (st L R W) (no_body fh oh) (fun _ => st L R W).
+Proof. intros. apply t_ret. auto. Qed.
